@@ -50,7 +50,17 @@ Definition expected_radd (c : rcase) (d : doc) : iadd :=
        then IAddOk else IAddErr.
 
 Definition is_add_ok (a : iadd) : bool := match a with IAddOk => true | _ => false end.
-Definition all_accepted (c : rcase) : bool := forallb (fun da => is_add_ok (snd da)) (rk_docs c).
+(* a refusal that happens before anything of the document is encoded leaves no partial entries: no conjunction, an id
+   outside the range (the first conjunction id cannot be built), an unconfigured field in the FIRST conjunction (checked
+   before that conjunction is encoded) *)
+Definition refused_clean (c : rcase) (d : doc) : bool :=
+  match d_conjs d with
+  | [] => true
+  | cj :: _ => (36028797018963967 <? Z.abs (d_id d)) ||
+               negb (forallb (fun fe : fname * list expr => match alookup N.eqb (fst fe) (rk_fields c) with Some _ => true | None => false end) cj)
+  end.
+Definition all_accepted (c : rcase) : bool :=
+  forallb (fun da => is_add_ok (snd da) || refused_clean c (fst da)) (rk_docs c).
 
 Definition q_supported_rr (c : rcase) (q : assignment) : bool :=
   forallb (fun fv => match alookup N.eqb (fst fv) (rk_fields c) with
@@ -63,7 +73,7 @@ Definition q_supported_rr (c : rcase) (q : assignment) : bool :=
 Definition spec_pairs (c : rcase) (q : assignment) : option (list (Z * Z)) :=
   if negb (q_supported_rr c q) then None else
   option_map (map (fun h => (fst h, fst (snd h))))
-             (sat_hits (rfields c) (rparsers c) PolError rr_docok (map fst (rk_docs c)) q).
+             (sat_hits (rfields c) (rparsers c) PolError (fun d => rr_docok d && all_fields_known c d) (map fst (rk_docs c)) q).
 
 Definition raw_of (ps : list (Z * Z)) : list N := setN (map (fun p => rr_id (fst p) (snd p)) ps).
 Definition docs_of (ps : list (Z * Z)) : list N := setN (map (fun p => u64_of (fst p)) ps).
